@@ -137,6 +137,24 @@ let rec pairs = function
 
 let writes (q : iquery) : bool = iso_writes_into_row q
 
+(* readable part of a U/A verdict: the query text and the top-level columns of the caller's row whose
+   deep snapshot differs (a slice is shown with the content of its spare capacity behind the marker
+   s7c6361707c = "|cap|" in the nested-argument family) *)
+let sql_text (hexs : string) : string = try string_of_bytes (bytes_of_hex hexs) with _ -> hexs
+
+let changed_columns (before : string) (after : string) : string =
+  try
+    let b = parse_row before and a = parse_row after in
+    let find k m = try Some (show_val (List.assoc k m)) with Not_found -> None in
+    let keys = List.sort_uniq compare (List.map fst b @ List.map fst a) in
+    let ch = List.filter_map (fun k ->
+        let vb = find k b and va = find k a in
+        if vb = va then None
+        else Some (Printf.sprintf "%s:%s=>%s" (string_of_bytes k)
+                     (match vb with Some v -> v | None -> "absent") (match va with Some v -> v | None -> "absent"))) keys in
+    if ch = [] then "-" else String.concat ";" ch
+  with _ -> "?"
+
 let handle (toks : string list) : string =
   match toks with
   | "D" :: j :: w :: st :: items :: "#" :: rest ->
@@ -197,23 +215,25 @@ let handle (toks : string list) : string =
                     | [] -> if writes q && List.exists (fun (g, _) -> g <> "-") ob then "ok nt" else "ok"))
             with Unparsable s -> "diff unparsable_value " ^ s)
        | _ -> "bad line")
-  | ["U"; kind; mode; wr; _sql; before; after] ->
+  | ["U"; kind; mode; wr; sql; before; after] ->
       (match iso_chk_same IClCallerMutated (bytes_of_string before) (bytes_of_string after) with
-       | Some cl -> Printf.sprintf "chk %s kind=%s mode=%s before=%s after=%s" (c20_clause cl) kind mode before after
+       | Some cl -> Printf.sprintf "chk %s kind=%s mode=%s sql=[%s] changed_columns=%s before=%s after=%s" (c20_clause cl) kind mode
+                      (sql_text sql) (changed_columns before after) before after
        | None -> if wr = "w" then "ok nt" else "ok")
   | ["S"; kind; _sql; at; later] ->
       (match iso_chk_same IClSinkRowChanged (bytes_of_string at) (bytes_of_string later) with
        | Some cl -> Printf.sprintf "chk %s kind=%s" (c20_clause cl) kind
        | None -> "ok")
-  | ["A"; kind; mode; _sql; before; after] ->
+  | ["A"; kind; mode; sql; before; after] ->
       (match iso_chk_same IClDeliveredAliasesCaller (bytes_of_string before) (bytes_of_string after) with
-       | Some cl -> Printf.sprintf "chk %s kind=%s mode=%s before=%s after_overwriting_delivered_rows=%s" (c20_clause cl) kind mode before after
+       | Some cl -> Printf.sprintf "chk %s kind=%s mode=%s sql=[%s] changed_columns=%s before=%s after_overwriting_delivered_rows=%s" (c20_clause cl) kind mode
+                      (sql_text sql) (changed_columns before after) before after
        | None -> "ok")
-  | ["P"; kind; mode; _sa; _sb; soloa; paira; solob; pairb] ->
+  | ["P"; kind; mode; sa; sb; soloa; paira; solob; pairb] ->
       (match iso_chk_same IClInstanceInterference (bytes_of_string soloa) (bytes_of_string paira),
              iso_chk_same IClInstanceInterference (bytes_of_string solob) (bytes_of_string pairb) with
-       | Some cl, _ -> Printf.sprintf "chk %s instance=A kind=%s mode=%s alone=%s next_to_B=%s" (c20_clause cl) kind mode soloa paira
-       | _, Some cl -> Printf.sprintf "chk %s instance=B kind=%s mode=%s alone=%s next_to_A=%s" (c20_clause cl) kind mode solob pairb
+       | Some cl, _ -> Printf.sprintf "chk %s instance=A kind=%s mode=%s sqlA=[%s] sqlB=[%s] alone=%s next_to_B=%s" (c20_clause cl) kind mode (sql_text sa) (sql_text sb) soloa paira
+       | _, Some cl -> Printf.sprintf "chk %s instance=B kind=%s mode=%s sqlA=[%s] sqlB=[%s] alone=%s next_to_A=%s" (c20_clause cl) kind mode (sql_text sa) (sql_text sb) solob pairb
        | None, None -> "ok nt")
   | _ -> "bad line"
 
